@@ -19,6 +19,9 @@ type C17Case struct {
 	Tree   *V       `json:"tree,omitempty"` // list of any kinds (reverse / badsort)
 	Twice  bool     `json:"twice,omitempty"`
 	Route  int      `json:"route,omitempty"` // construction route (see listByRoute)
+	// Ops: further Sort / Reverse calls after the first Sort (sort modes only), each followed by a
+	// comparison with the model (Sort -> sorted, Reverse -> reversed)
+	Ops []string `json:"ops,omitempty"`
 }
 
 var sortStrings = []string{"", "a", "b", "ab", "abc", "B", "é", "e", "z", "aa", "a ", "\x00", "ÿ", "😀", "A", "a\x00"}
@@ -26,6 +29,11 @@ var sortStrings = []string{"", "a", "b", "ab", "abc", "B", "é", "e", "z", "aa",
 func GenC17(t *rapid.T) *C17Case {
 	n := []int{1, 2, 3, 4, 5, 6, 7, 8, 9, 12, 13, 16, 17, 25, 32, 33, 40, 64, 65, 100, 129, 11, 12, 13}[drawIdx(t, 24, "n")]
 	c := &C17Case{Twice: drawBool(t, "twice"), Route: drawInt(t, 0, 7, "route")}
+	if drawBool(t, "seq") {
+		for i, n := 0, drawInt(t, 1, 5, "nops"); i < n; i++ {
+			c.Ops = append(c.Ops, []string{"sort", "reverse"}[drawInt(t, 0, 1, "op")])
+		}
+	}
 	shape := drawInt(t, 0, 3, "shape") // 0 random, 1 sorted, 2 reverse sorted, 3 duplicate-heavy
 	switch pick(t, "mode", 25, 25, 25, 17, 8) {
 	case 0:
@@ -207,6 +215,38 @@ func CheckC17(c *C17Case, st *Stats) error {
 		again, _ := Snap(l)
 		if !EqV(again, afterV) {
 			return errf("a second Sort changed the list: %s -> %s", afterV.Show(), again.Show())
+		}
+		// further Sort / Reverse calls against a model
+		model := append([]V{}, again.L...)
+		for oi, op := range c.Ops {
+			switch op {
+			case "sort":
+				l.Sort()
+				sort.SliceStable(model, func(i, j int) bool {
+					switch model[i].K {
+					case KString:
+						return model[i].S < model[j].S
+					case KInt:
+						return model[i].I < model[j].I
+					}
+					return model[i].Float() < model[j].Float()
+				})
+			case "reverse":
+				l.Reverse()
+				for i, j := 0, len(model)-1; i < j; i, j = i+1, j-1 {
+					model[i], model[j] = model[j], model[i]
+				}
+			default:
+				continue
+			}
+			now, err := Snap(l)
+			if err != nil {
+				return err
+			}
+			if !EqV(now, V{K: KList, L: model}) {
+				return errf("after the initial Sort and then %v (step %d: %s) the list is %s, expected %s", c.Ops[:oi+1], oi, op, now.Show(), V{K: KList, L: model}.Show())
+			}
+			st.Count("seqop." + op)
 		}
 		sorted := true
 		for i := 0; i+1 < n; i++ {
